@@ -144,6 +144,10 @@ func main() {
 		case "setgid":
 			r.CloneFlags = unix.CLONE_NEWUSER
 			r.Credential = &syscall.Credential{Uid: 0, Gid: 12345, NoSetGroups: true}
+		case "setgroups":
+			// supplementary groups asked for in a user namespace in which setgroups is denied
+			r.CloneFlags = unix.CLONE_NEWUSER
+			r.Credential = &syscall.Credential{Uid: 0, Gid: 0, Groups: []uint32{0}}
 		case "dup3":
 			r.Files = []uintptr{0, 1, 2, 999}
 		case "mount":
